@@ -147,13 +147,21 @@ def gen_world(rng, opts):
         col = w["prices"][pid]["cols"][rng.choice(specs.PRICE_KEYS)]
         col[rng.randrange(len(col))] = float("nan")
         faulty.append(pid)
+    # a table that is fine at first and broken late in the horizon: a split set-up fails in a LATER interval
+    late = {}
+    for g in grids:
+        pid = specs.gen_prices(env, g, form="dict_nd")
+        for k_ in specs.PRICE_KEYS:
+            col = w["prices"][pid]["cols"][k_]
+            col[-1] = float("nan")
+        late[g] = pid
     if rng.random() < 0.1 and w["dicts"]:
         # overlapping intervals in a shared dict (EAO rejects them with ValueError)
         d = w["dicts"][rng.choice(sorted(w["dicts"]))]["d"]
         if isinstance(d.get("start"), list) and len(d["start"]) >= 2 and isinstance(d.get("end"), list):
             d["end"][0] = d["end"][-1]
     world = specs.clean_world(w)
-    ctx = {"grids": grids, "prices": prices, "faulty": faulty, "tops": tops, "T0": T0, "f0": f0,
+    ctx = {"grids": grids, "prices": prices, "faulty": faulty, "late_nan": late, "tops": tops, "T0": T0, "f0": f0,
            "U0": specs.iso(env.U0), "U1": specs.iso(env.U1), "tz": env.tz, "param_tz": env.param_tz}
     return world, ctx
 
@@ -291,14 +299,18 @@ def gen_scripts(rng, world, ctx):
         st = []
         if rng.random() < 0.5:
             st.append({"op": "P.setup", "obj": P, "grid": g, "prices": p, "cast": _cast(rng, world, p)})
-        st.append({"op": "P.split", "obj": P, "grid": g, "prices": p, "interval": rng.choice(["d", "d", "12h", "8h", "2d"])})
-        if rng.random() < 0.6:
+        failing = rng.random() < 0.3
+        st.append({"op": "P.split", "obj": P, "grid": g, "prices": (ctx["late_nan"][g] if failing else p),
+                   "interval": rng.choice(["d", "d", "12h", "8h", "2d"])})
+        if rng.random() < (0.8 if failing else 0.6):
             p2 = _p(rng, ctx, g, alt=1)
             st.append({"op": "P.setup", "obj": P, "grid": None, "prices": p2, "cast": _cast(rng, world, p2)})
-        if rng.random() < 0.3:
+        if rng.random() < (0.7 if failing else 0.3):
             a = rng.choice(world["portfolios"][P]["assets"])
             st.append({"op": "a.setup", "obj": a, "grid": None, "prices": ctx["prices"][g][1], "cast": False,
                        "costs_only": False})
+        if failing and rng.random() < 0.5:
+            rng.shuffle(st[-2:]) if len(st) >= 3 else None
         return st
 
     def grid_user():
